@@ -57,13 +57,24 @@ REGIONS = {
 }
 KERNEL = {'nearest': 0.5, 'bilinear': 1.0, 'bicubic': 2.0}
 SLACK = 1.0
-TOL_PX = 1.5
+TOL_PX = 1.5          # the property's tolerance: bound of the mean displacement of an image
+PIXEL_TOL_PX = 2.5    # single pixels: 1.5 px + 1.0 px slack (mesh error < 1 px, nearest-neighbour 0.5 px and sub-image
+                      # placement < 1 px are each inside MapProxy's own budget but can stack up locally)
 MEAN_SLACK = 0.1
 OUTLIER_FRAC = 0.005
-OUTLIER_ABS = 10
+OUTLIER_ABS = 50
+D100_MAX = 0.75       # px; requests whose projection bends more than this across 100 px are not judged (see Geometry)
 # level resolutions are not a whole multiple of the RAMP scale, so that the rounding of the upstream picture to integer
 # levels averages out over an image instead of adding a constant bias (seen: 0.25 px with res == s exactly)
-S0_FACTOR = 1.0373 / 4.0    # ~3.86 levels per pixel at the nominal resolution of the octave (log2 stays centred)
+S0_FACTOR = 1.0373
+# levels per pixel at the nominal resolution s0*2^k of an octave: Pillow truncates to integer levels in its bilinear /
+# bicubic transforms (up to -1 level per resampling stage); with 4 levels per pixel that costs a quarter pixel per stage
+GAIN = 4.0
+
+
+def ramp_scale(s0, k):
+    return s0 * 2.0 ** k / GAIN
+
 RLOCK = threading.Lock()
 DEBUG = bool(__import__('os').environ.get('C01_DEBUG'))
 
@@ -126,7 +137,7 @@ def gen_spec(rng):
             'meta_size': rng.choice([[1, 1], [2, 2], [3, 2], [1, 3], [4, 4]]),
             'meta_buffer': rng.choice([0, 0, 10, 40, 80]),
             'backend': rng.choice(['file:tc', 'file:tms', 'file:mp', 'sqlite', 'sqlite', 'mbtiles', 'geopackage']),
-            'supported_srs': None, 'coverage': None, 'cached': True}
+            'supported_srs': None, 'coverage': None, 'cached': True, 'cache_transparent': rng.random() < 0.5}
     g = gen_grid(rng, gsrs)
     spec['grids']['g'] = g
     spec['canon'] = gsrs
@@ -153,6 +164,12 @@ def gen_spec(rng):
         w2, h2 = g2['bbox'][2] - g2['bbox'][0], g2['bbox'][3] - g2['bbox'][1]
         ox, oy = rng.uniform(0.25, 0.75), rng.uniform(0.25, 0.75)
         g2['bbox'] = [c2[0] - w2 * ox, c2[1] - h2 * oy, c2[0] + w2 * (1 - ox), c2[1] + h2 * (1 - oy)]
+        # the lower cache does not shrink by more than max_shrink_factor (4): keep the coarsest upper level within 3x
+        f = max(geo.local_scale(g2['srs'], gsrs, c2[0], c2[1], w2 / 50))
+        lim = g['res'][0] * rng.uniform(1.0, 3.0)
+        if g2['res'][0] * f > lim:
+            q = lim / (g2['res'][0] * f)
+            g2['res'] = [v * q for v in g2['res']]
         spec['grids']['g2'] = g2
         spec['layer_grid'] = 'g2'
         spec['supported_srs'] = [gsrs]
@@ -184,7 +201,30 @@ def gen_spec(rng):
     if spec['coverage']:
         spec['extents'].append(dict(spec['coverage']))
     spec['fi'] = shape != 'tile_src'
+    if spec['cached'] and spec['supported_srs'] and not any(geo.same_crs(c, gsrs) for c in spec['supported_srs']):
+        # every upstream request is made in another SRS: its resolution, measured in the canonical frame, differs from the
+        # level's by a factor that depends on the SRS pair and the latitude (up to +-0.4 octaves). Use a factor-2 ladder
+        # and centre the octaves of the RAMP encoding on what an upstream request for level 0 really measures.
+        g['res'] = [g['res'][0] / 2 ** i for i in range(len(g['res']))]
+        g['ladder'] = 'f2'
+        spec['s0'] = upstream_res_estimate(g, spec['supported_srs'][0]) * S0_FACTOR
     return spec
+
+
+def upstream_res_estimate(g, src_srs):
+    """canonical-frame resolution of the request MapProxy sends in src_srs for a 256 px square of level 0 at the grid centre"""
+    r = g['res'][0]
+    cx, cy = (g['bbox'][0] + g['bbox'][2]) / 2, (g['bbox'][1] + g['bbox'][3]) / 2
+    bb = (cx - 128 * r, cy - 128 * r, cx + 128 * r, cy + 128 * r)
+    sb = geo.densified_envelope(bb, g['srs'], src_srs)
+    p = min((sb[2] - sb[0]) / 256.0, (sb[3] - sb[1]) / 256.0)
+    sx, sy = (sb[0] + sb[2]) / 2, (sb[1] + sb[3]) / 2
+    p0 = geo.transform(src_srs, g['srs'], sx, sy)
+    p1 = geo.transform(src_srs, g['srs'], sx + p, sy)
+    p2 = geo.transform(src_srs, g['srs'], sx, sy + p)
+    a = (p1[0] - p0[0], p1[1] - p0[1])
+    b = (p2[0] - p0[0], p2[1] - p0[1])
+    return math.sqrt(abs(a[0] * b[1] - a[1] * b[0]))
 
 
 def backend_conf(b):
@@ -229,12 +269,16 @@ def build_conf(spec, host='ramp', tiles_host='rtiles'):
         c = {'grids': ['g'], 'sources': ['src'], 'format': 'image/png', 'request_format': 'image/png',
              'meta_size': list(spec['meta_size']), 'meta_buffer': spec['meta_buffer'],
              'cache': backend_conf(spec['backend'])}
+        if spec.get('cache_transparent'):
+            c['image'] = {'transparent': True}
         conf['caches']['c'] = c
         top = 'c'
         if 'g2' in spec['grids']:
             conf['caches']['c2'] = {'grids': ['g2'], 'sources': ['c'], 'format': 'image/png',
                                     'meta_size': list(spec.get('meta_size2', [1, 1])), 'meta_buffer': 0,
                                     'cache': {'type': 'file'}}
+            if spec.get('cache_transparent'):
+                conf['caches']['c2']['image'] = {'transparent': True}
             top = 'c2'
         conf['layers'] = [{'name': 'l', 'title': 'l', 'sources': [top]}]
     else:
@@ -301,7 +345,7 @@ class Ramp(object):
             b = (p2[0] - p0[0], p2[1] - p0[1])
             res = math.sqrt(abs(a[0] * b[1] - a[1] * b[0]))
         k = geo.octave(res, self.s0)
-        s = self.s0 * 2.0 ** k
+        s = ramp_scale(self.s0, k)
         bad = ~(np.isfinite(X) & np.isfinite(Y))
         if bad.any():
             X = np.where(bad, 0.0, X)
@@ -386,6 +430,11 @@ def gen_bbox(rng, spec, srs, scale_class, pos_class, size, aniso=1.0):
     else:
         r = ladder[0] * rng.uniform(1.15, 3.0)
     Ew, Eh = E[2] - E[0], E[3] - E[1]
+    # keep the requested area moderate (at most twice the layer extent): distortion stays mid-latitude / regional
+    w = max(16, min(w, int(2.0 * Ew / r)))
+    h = max(16, min(h, int(2.0 * Eh / r)))
+    if w == h:
+        h += 3
     bw, bh = w * r, h * r
     if pos_class == 'interior':
         cx = E[0] + bw / 2 + rng.random() * max(0.0, Ew - bw) if Ew > bw else E[0] + Ew * rng.uniform(0.3, 0.7)
@@ -412,14 +461,14 @@ def gen_bbox(rng, spec, srs, scale_class, pos_class, size, aniso=1.0):
             else:
                 y0 = E[1] + round((cy - bh / 2 - E[1]) / r) * r
             on_lattice = True
-            return (x0, y0, x0 + w * r, y0 + h * r), on_lattice
+            return (x0, y0, x0 + w * r, y0 + h * r), on_lattice, (w, h)
         rx, ry = r, r * aniso
-        return (cx - w * rx / 2, cy - h * ry / 2, cx + w * rx / 2, cy + h * ry / 2), on_lattice
+        return (cx - w * rx / 2, cy - h * ry / 2, cx + w * rx / 2, cy + h * ry / 2), on_lattice, (w, h)
     c = geo.transform(L, srs, cx, cy)
     sx, sy = geo.local_scale(L, srs, cx, cy, r * 8)
     rc = r * math.sqrt(sx * sy)
     rx, ry = rc, rc * aniso
-    return (c[0] - w * rx / 2, c[1] - h * ry / 2, c[0] + w * rx / 2, c[1] + h * ry / 2), on_lattice
+    return (c[0] - w * rx / 2, c[1] - h * ry / 2, c[0] + w * rx / 2, c[1] + h * ry / 2), on_lattice, (w, h)
 
 
 def gen_requests(rng, spec, n_map, n_fi):
@@ -441,7 +490,7 @@ def gen_requests(rng, spec, n_map, n_fi):
         else:
             pc = pos_class
         aniso = rng.uniform(0.6, 1.6) if rng.random() < 0.15 else 1.0
-        bbox, lat = gen_bbox(rng, spec, srs, scale_class, pc, (w, h), aniso)
+        bbox, lat, (w, h) = gen_bbox(rng, spec, srs, scale_class, pc, (w, h), aniso)
         if scale_class == 'on_level' and not lat:
             scale_class = 'on_level_res' if geo.same_crs(srs, frame_of(spec)[0]) else 'near_level'
         reqs.append({'kind': 'map', 'version': rng.choice(['1.1.1', '1.3.0']), 'srs': srs, 'bbox': list(bbox),
@@ -455,7 +504,7 @@ def gen_requests(rng, spec, n_map, n_fi):
             h = int(min(500, max(16, w * rng.uniform(0.5, 1.6))))
             scale_class = rng.choice(['between', 'between', 'finer', 'coarser'])
             pos_class = rng.choice(['interior', 'interior', 'straddle'])
-            bbox, _ = gen_bbox(rng, spec, srs, scale_class, pos_class, (w, h))
+            bbox, _, (w, h) = gen_bbox(rng, spec, srs, scale_class, pos_class, (w, h))
             version = rng.choice(['1.1.1', '1.3.0'])
             clicks = [(0, 0), (w - 1, 0), (0, h - 1), (w - 1, h - 1), (w // 2, h // 2),
                       (rng.randrange(w), rng.randrange(h)), (rng.randrange(w), rng.randrange(h))]
@@ -513,6 +562,31 @@ class Geometry(object):
         self.px_i = float(np.median(pi))
         self.px_j = float(np.median(pj))
         self.out_res = max(1e-300, min(self.px_i, self.px_j))
+        # non-linearity of the client-pixel -> ground mapping for every SRS of the chain (grids, source SRS): error (in
+        # output px) of a linear interpolation across 100 px, L^2/8 * second difference. MapProxy never verifies mesh
+        # quads below 50 px and splits only while both sides are >= 50, so quads of up to ~100 px go unchecked by design.
+        chain = set([geo.canon(spec['canon'])] + [geo.canon(g['srs']) for g in spec['grids'].values()] +
+                    [geo.canon(c) for c in (spec['supported_srs'] or [])])
+        self.d100 = 0.0
+        t = max(1, min(size) // 24)
+        xs, ys = geo.pixel_centres(bbox, size)
+        xs, ys = xs[::t], ys[::t]
+        GX, GY = np.meshgrid(xs, ys)
+        for code in chain:
+            if geo.same_crs(code, srs):
+                continue
+            ax, ay = geo.transform(srs, code, GX.ravel(), GY.ravel())
+            A1, A2 = np.asarray(ax).reshape(GX.shape), np.asarray(ay).reshape(GX.shape)
+            if not (np.isfinite(A1).all() and np.isfinite(A2).all()) or A1.shape[0] < 3 or A1.shape[1] < 3:
+                continue
+            # local pixel size (per output px) in units of `code`
+            px = min(float(np.median(np.hypot(np.diff(A1, axis=1), np.diff(A2, axis=1)))),
+                     float(np.median(np.hypot(np.diff(A1, axis=0), np.diff(A2, axis=0))))) / t
+            d2 = 0.0
+            for A in (A1, A2):
+                d2 = max(d2, float(np.abs(A[:, 2:] - 2 * A[:, 1:-1] + A[:, :-2]).max()),
+                         float(np.abs(A[2:, :] - 2 * A[1:-1, :] + A[:-2, :]).max()))
+            self.d100 = max(self.d100, (100.0 / t) ** 2 / 8.0 * d2 / max(px, 1e-300))
         # signed distance to the edge of the intersection of all extents, in output pixels (positive = inside)
         inside = np.full(X.shape, np.inf)
         for e in spec['extents']:
@@ -546,6 +620,19 @@ def mid_res_bound(spec, geom):
     return max(1.2 * max(geom.px_i, geom.px_j), g2['res'][-1] * f)
 
 
+def dilate(m, r):
+    """binary dilation by a (2r+1) square, numpy only"""
+    out = m.copy()
+    for d in range(1, r + 1):
+        out[:, d:] |= m[:, :-d]
+        out[:, :-d] |= m[:, d:]
+    m2 = out.copy()
+    for d in range(1, r + 1):
+        out[d:, :] |= m2[:-d, :]
+        out[:-d, :] |= m2[d:, :]
+    return out
+
+
 def stages(spec):
     """number of resampling stages between the upstream picture and the response"""
     n = 1
@@ -556,15 +643,15 @@ def stages(spec):
     return n
 
 
-def analyse(arr, geom, spec, req, k, src_res, stride=1, full=False):
+def analyse(arr, geom, spec, req, k, src_res, stride=1, full=False, also=None):
     """judge the RGBA response `arr` under the hypothesis that its content was rendered with octave k"""
     sl = (slice(None, None, stride), slice(None, None, stride))
-    s = spec['s0'] * 2.0 ** k
+    s = ramp_scale(spec['s0'], k)
     chain = max(src_res, mid_res_bound(spec, geom))
     scale = max(1.0, chain / geom.out_res)
-    tol = TOL_PX * scale
+    tol = PIXEL_TOL_PX * scale
     kern = KERNEL[spec['resampling']]
-    band = (TOL_PX + kern) * scale + 1.0
+    band = (PIXEL_TOL_PX + kern) * scale + 1.0
     X, Y = geom.X[sl], geom.Y[sl]
     Xi, Xj, Yi, Yj = geom.Xi[sl], geom.Xj[sl], geom.Yi[sl], geom.Yj[sl]
     inside = geom.inside[sl]
@@ -592,21 +679,36 @@ def analyse(arr, geom, spec, req, k, src_res, stride=1, full=False):
         bgc = np.array([int(bg[1:3], 16), int(bg[3:5], 16), int(bg[5:7], 16)], dtype=np.uint8)
         is_bg = (arr[sl][..., :3] == bgc).all(axis=2)
         opaque = alpha == 255
-    if spec['shape'] == 'tile_src' and not spec.get('tile_transparent'):
-        # an opaque layer: the cache paints what it has no tile for in its own background colour (white)
+    if spec['cached'] and not (spec.get('cache_transparent') and (spec['shape'] != 'tile_src' or spec.get('tile_transparent'))):
+        # an opaque cache paints what it has no tile / no data for in its own background colour (white)
         is_bg = is_bg | ((arr[sl][..., :3] == 255).all(axis=2) & opaque)
     in_mask = fin & (inside > band)
     out_mask = fin & (inside < -band)
     good_in = match & opaque
     good_out = is_bg | (match & opaque)
+    # MapProxy may show correct content beyond the true extent (it clips with the envelope of the extent in the request
+    # SRS); where that content ends, resampling blends it with the background: accept pixels on such a boundary
+    rad = int(math.ceil(((kern + 1.0) * scale + 1.0) / stride))
+    if out_mask.any() and not good_out[out_mask].all():
+        good_out = good_out | (dilate(is_bg, rad) & dilate(match & opaque, rad))
     strong = (grads[0] >= 0.5) | (grads[1] >= 0.5)
+    rescued = 0
+    if also is not None:
+        # pixels that another octave explains (cache of cache: different upper tiles / thin strips at the extent edge
+        # are legitimately built from different lower levels, because the level is chosen per sub-request)
+        before = int((in_mask & ~good_in).sum()) + int((out_mask & ~good_out).sum())
+        good_in = good_in | also
+        good_out = good_out | also
+        rescued = before - int((in_mask & ~good_in).sum()) - int((out_mask & ~good_out).sum())
     res = {
         'k': k, 'scale': scale, 'tol': tol, 'band': band, 'slack': slack, 'grad': float(np.median(grads[0])),
         'n_in': int(in_mask.sum()), 'n_out': int(out_mask.sum()), 'n_band': int((fin & ~in_mask & ~out_mask).sum()),
         'bad_in': int((in_mask & ~good_in).sum()), 'bad_out': int((out_mask & ~good_out).sum()),
         'n_strong': int((in_mask & strong).sum()), 'n_weak': int((in_mask & ~strong).sum()),
-        'bg_in': int((in_mask & is_bg & ~match).sum()),
+        'bg_in': int((in_mask & is_bg & ~match).sum()), 'rescued': rescued,
     }
+    if full == 'mask':
+        return match & opaque
     if not full:
         return res
     # ---- position statistics: displacement along the canonical x axis (from R) and y axis (from G), in output px ----
@@ -657,7 +759,16 @@ def judge_map(run, spec, req, resp, ramp, case, n_up_before):
 
     if resp.code != 200 or resp.content_type != 'image/png':
         run.judge(cls, nontrivial=False)
-        viol('no_image', 'answered %d %s %r' % (resp.code, resp.content_type, resp.body[:300]))
+        if not (Geometry(spec, req).inside > 0).any():
+            # no pixel of the request lies inside the layer: there is no content to place. (Seen: HTTP 500 "Invalid
+            # BBOX" instead of a blank image when the request misses the extent in its own SRS but touches it in the
+            # extent's SRS - a robustness matter outside this property.)
+            run.dc('error_answer_for_request_without_pixel_inside_extent')
+            return None
+        if b'max_tile_limit' in resp.body:
+            run.dc('request_needs_more_tiles_than_max_tile_limit')
+            return None
+        viol('no_image', 'answered %d %s %r' % (resp.code, resp.content_type, resp.body[-300:]))
         return None
     img = resp.image()
     if tuple(img.size) != tuple(req['size']):
@@ -668,18 +779,39 @@ def judge_map(run, spec, req, resp, ramp, case, n_up_before):
     geom = Geometry(spec, req)
     ks = ramp.ks()
     h, w = arr.shape[:2]
+    if geom.d100 > D100_MAX:
+        run.judge(cls, nontrivial=False)
+        run.dc('request_distortion_beyond_unverified_mesh_quads')
+        run.count('distortion_dc:%s:%s' % (req['scale_class'].replace('_aniso', ''), req['srs']))
+        return None
     has_inside = bool((geom.inside > 0).any())
     if not ks:
         # nothing was ever fetched: the picture must be background wherever it is clearly outside
         ks = {0: spec['s0']}
+    mech['clipped'] = bool(has_inside and (geom.inside < 0).any())
     stride = max(1, int(math.sqrt(w * h / 3000.0)))
+    # octaves fetched for this very request first (ties go to them), then whatever the cache may hold from earlier ones
+    mine = [m['k'] for m in ramp.maps if m['n'] > n_up_before]
+    order = sorted(ks, key=lambda k: (k not in mine, k))
     best = None
-    for k, src_res in sorted(ks.items()):
-        r = analyse(arr, geom, spec, req, k, src_res, stride=stride)
-        score = r['bad_in'] + r['bad_out']
-        if best is None or score < best[0]:
-            best = (score, k, src_res)
+    for attempt in (stride, 1):
+        for k in order:
+            r = analyse(arr, geom, spec, req, k, ks[k], stride=attempt)
+            score = r['bad_in'] + r['bad_out']
+            if best is None or score < best[0]:
+                best = (score, k, ks[k], r['n_in'])
+        if attempt == 1 or best[3] >= 100 or len(order) == 1:
+            break
+        best = None
     r = analyse(arr, geom, spec, req, best[1], best[2], stride=1, full=True)
+    if r['bad_in'] + r['bad_out'] > 0 and 'g2' in spec['grids'] and len(order) > 1:
+        also = None
+        for k in order:
+            if k != best[1]:
+                m = analyse(arr, geom, spec, req, k, ks[k], stride=1, full='mask')
+                also = m if also is None else (also | m)
+        r = analyse(arr, geom, spec, req, best[1], best[2], stride=1, full=True, also=also)
+        run.dc('pixel_explained_by_another_octave_in_cache_of_cache', r['rescued'])
     n_j = r['n_in'] + r['n_out']
     run.hit('getmap_requests')
     run.hit('strong_pixels_judged', r['n_strong'])
@@ -842,6 +974,7 @@ def run_exact(run, case, spec, reqs, d):
     sc = scenario.Scenario(d, exact_conf(spec))
     run.hit('scenarios')
     tw, th = g['tile_size']
+    offgrid_calls = []
     for req in reqs:
         x, y, z = req['tile']
         rect = tile_rect(g, x, y, z)
@@ -849,6 +982,11 @@ def run_exact(run, case, spec, reqs, d):
              'transparent': True}
         up.reset_log()
         resp = sc.get(map_url(q))
+        for c in up.log:
+            if c.extra.get('offgrid', 0.0) > 1e-9 and 'q' in c.extra:
+                # MapProxy clipped a (meta) request at the grid border to a rectangle that is not a whole number of
+                # pixels: the upstream picture for it is rendered by position and is not the lattice picture
+                offgrid_calls.append((c.extra['q']['bbox'], c.extra.get('level')))
         nx, ny = grid_size(g, z)
         pc = ('edge' if x in (0, nx - 1) else 'mid', 'edge' if y in (0, ny - 1) else 'mid')
         cls = (spec['shape'], req['srs'], 'exact', pc, req['version'])
@@ -891,12 +1029,19 @@ def run_exact(run, case, spec, reqs, d):
             for dy in (-1, 0, 1):
                 near |= (arr[..., :3] == upstream.noise_rgb(z, gx + dx, gy + dy, 0)).all(axis=2)
         j, i = bad[0]
-        run.violation(dict(mech, clause='exact_tile_differs', whole_tile_inside=whole,
-                           resampled_within_one_px=bool(near[mask].all()), aligned=g['aligned']), case,
+        from_offgrid = any(lv == z and b[0] < rect[2] and b[2] > rect[0] and b[1] < rect[3] and b[3] > rect[1]
+                           for b, lv in offgrid_calls)
+        if from_offgrid and near[mask].all():
+            run.dc('exact_tile_built_from_offgrid_upstream_request_within_one_px')
+            continue
+        run.violation(dict(mech, clause='exact_tile_differs', whole_tile_inside=whole), case,
                       'exact-tile GetMap %s (tile %r of grid %r): %d of %d judged pixels differ from the stored tile; first '
-                      '(col,row)=(%d,%d) got %r expected %r; upstream calls %d' % (
+                      '(col,row)=(%d,%d) got %r expected %r; upstream calls %d; every judged pixel equals a lattice pixel at '
+                      'most one away: %s; tile built from an off-grid (clipped) upstream request: %s; grid extent is a whole '
+                      'number of level-0 tiles: %s' % (
                           map_url(q), (x, y, z), grid_conf(g), len(bad), n, i, j, tuple(int(v) for v in arr[j, i]),
-                          tuple(int(v) for v in exp[j, i]), len(up.log)))
+                          tuple(int(v) for v in exp[j, i]), len(up.log), bool(near[mask].all()), from_offgrid,
+                          g['aligned']))
     if case['i'] < 40:
         run.sample({'family': 'exact', 'grid': grid_conf(g), 'shape': spec['shape'], 'requests': reqs[:3]})
 
@@ -958,6 +1103,12 @@ def run_ramp(run, case, spec, reqs, d):
     run.hit('scenarios')
     up.reset_log()
     summary = []
+    for old in case.get('history') or []:
+        # replay of a single request: bring the cache into the state it had (earlier GetMaps of the scenario)
+        try:
+            sc.get(map_url(old))
+        except Exception:
+            pass
     for req in reqs:
         if run.out_of_time() and not run.replaying:
             run.count('requests_skipped_for_budget')
